@@ -195,6 +195,32 @@ fn catalogue(w: &WUsk, other: &WUsk, rng: &mut Rng) -> Vec<(String, Vec<u8>)> {
             m.chains[i].1.extend(tail);
             push("reframe-merge-empty-right-chain-into-previous", &m);
         }
+        // split a chain into two adjacent chains carrying the same right name (every split point).
+        // For the *empty* right this is byte-identical to operator (b) below, so it is only
+        // generated for named rights.
+        let named = !w.chains[i].0.is_empty();
+        if named {
+            for k in 1..w.chains[i].1.len() {
+                let mut m = w.clone();
+                let tail = m.chains[i].1.split_off(k);
+                let name = m.chains[i].0.clone();
+                m.chains.insert(i + 1, (name, tail));
+                push("split-chain-duplicating-the-right-name", &m);
+                // and the two halves swapped
+                let mut m2 = m.clone();
+                m2.chains.swap(i, i + 1);
+                push("split-chain-duplicating-the-right-name-swapped", &m2);
+            }
+        }
+        // one secret per chain, all under the same right name
+        if w.chains[i].1.len() >= 3 || (named && w.chains[i].1.len() >= 2) {
+            let mut m = w.clone();
+            let (name, secrets) = m.chains.remove(i);
+            for (q, sk) in secrets.into_iter().enumerate() {
+                m.chains.insert(i + q, (name.clone(), vec![sk]));
+            }
+            push(if named { "explode-chain-into-single-secret-chains" } else { "reframe-explode-empty-right-chain" }, &m);
+        }
         // (b) split a chain: its tail becomes the chain of the empty right
         if w.chains[i].1.len() >= 2 {
             let mut m = w.clone();
